@@ -494,18 +494,36 @@ def rule_r9(ctx) -> List[R.Inst]:
     from .. import sym
     M = ctx.M
     rid = "C02.R9"
-    fn = _read_notes_fn(ctx)
+    from ..normal import unroll_boundary_pairs, with_roles, _forward_subst, _blocks
+    import copy as _copy
+    import dataclasses as _dc
+    # a computed boundary list walked pairwise (`for b, (lo, hi) in enumerate(zip(L, L[1:]))`) is read as its index loop; the
+    # names introduced on the way (rows = len(measure_str), row_from, rows_in_beat) are substituted
+    fn0 = unroll_boundary_pairs(ctx.M.nfn(READ_NOTES))
+    node0 = _copy.deepcopy(fn0.node)
+    for lp_ in [n for n in ast.walk(node0) if isinstance(n, ast.For)]:
+        tmp = ast.FunctionDef(name="_", args=ast.arguments(posonlyargs=[], args=[], kwonlyargs=[], kw_defaults=[], defaults=[]),
+                              body=lp_.body, decorator_list=[], lineno=lp_.lineno, col_offset=0)
+        _forward_subst(tmp, {"beat_str", "snap", "snap_obj"} | {n.id for n in ast.walk(tmp) if isinstance(n, ast.Name) and n.id.isupper()})
+        lp_.body = tmp.body
+    fn = with_roles(_dc.replace(fn0, node=node0), SM_READ_ROLES)
     file = M.mods[fn.mod].rel
     insts = []
     loops = [n for n in ast.walk(fn.node) if isinstance(n, ast.For)]
     mloop = next((l for l in loops if isinstance(l.iter, ast.Call) and call_name_(l.iter) == "enumerate" and
                   isinstance(l.target, ast.Tuple) and unparse(l.target.elts[0]) == "measure"), None)
     bloop = next((l for l in loops if isinstance(l.iter, ast.Call) and call_name_(l.iter) == "range" and unparse(l.target) == "beat"), None)
+    if bloop is None:
+        # the beat loop by its content: the range loop that slices the measure
+        bloop = next((l for l in loops if isinstance(l.iter, ast.Call) and call_name_(l.iter) == "range" and isinstance(l.target, ast.Name) and
+                      any(isinstance(x, ast.Subscript) and isinstance(x.slice, ast.Slice) and mloop is not None and
+                          unparse(x.value) == unparse(mloop.target.elts[1]) for x in ast.walk(l))), None)
     if mloop is None or bloop is None:
         return [R.undec(rid, "row-position", file, fn.node.lineno, "measure / beat loops not found")]
     mstr = unparse(mloop.target.elts[1])
+    bvar = bloop.target.id
     # (a) the beat loop covers METRONOME parts
-    if unparse(bloop.iter.args[0]) == "METRONOME" and len(bloop.iter.args) == 1:
+    if len(bloop.iter.args) == 1 and sym.canon(bloop.iter.args[0], lambda n: "M4" if unparse(n) == "METRONOME" else None).same(sym.parse("M4")):
         insts.append(R.ok(rid, "beat-parts", file, bloop.lineno, idiom="for beat in range(METRONOME)"))
     else:
         insts.append(R.viol(rid, "beat-parts", file, bloop.lineno, "a measure is split into METRONOME (4) beats, numbered from 0",
@@ -520,7 +538,7 @@ def rule_r9(ctx) -> List[R.Inst]:
         lf = lambda n: ("N" if unparse(n) == f"len({mstr})" else ("M4" if unparse(n) == "METRONOME" else None))   # noqa: E731
         TR = ("float", "int")
         good = lo is not None and hi is not None and unparse(sl[0].value.value) == mstr and \
-            sym.canon(lo, lf, TR).same(sym.parse("beat * N / M4")) and sym.canon(hi, lf, TR).same(sym.parse("(beat + 1) * N / M4"))
+            sym.canon(lo, lf, TR).same(sym.parse(f"{bvar} * N / M4")) and sym.canon(hi, lf, TR).same(sym.parse(f"({bvar} + 1) * N / M4"))
         if good:
             insts.append(R.ok(rid, "beat-slice", file, sl[0].lineno, idiom="rows [beat*n/4, (beat+1)*n/4) of the measure"))
         else:
@@ -533,7 +551,8 @@ def rule_r9(ctx) -> List[R.Inst]:
                   call_name_(l.iter) == "enumerate" and unparse(l.iter.args[0]) == "beat_str"), None)
     if len(sn) == 1 and sloop is not None and len(sloop.iter.args) == 1 and not sloop.iter.keywords:
         lf2 = lambda n: ("K" if unparse(n) == "len(beat_str)" else None)   # noqa: E731
-        if sym.canon(sn[0].value, lf2).same(sym.parse("snap / K")):
+        ivar = sloop.target.elts[0].id if isinstance(sloop.target, ast.Tuple) and isinstance(sloop.target.elts[0], ast.Name) else "snap"
+        if sym.canon(sn[0].value, lf2).same(sym.parse(f"{ivar} / K")):
             insts.append(R.ok(rid, "row-fraction", file, sn[0].lineno, idiom="row i of the beat's k rows sits at i/k of the beat"))
         else:
             insts.append(R.viol(rid, "row-fraction", file, sn[0].lineno, "row i of the beat's k rows sits at i/k of the beat (i from 0)",
@@ -546,7 +565,7 @@ def rule_r9(ctx) -> List[R.Inst]:
     so = [n for n in ast.walk(bloop) if isinstance(n, ast.Call) and call_name_(n) == "Snap"]
     if len(so) == 1 and len(so[0].args) == 3:
         a0, a1, a2 = so[0].args
-        if unparse(a0) == "measure" and sym.canon(a1).same(sym.parse("beat + snap")) and unparse(a2) == "METRONOME":
+        if unparse(a0) == "measure" and sym.canon(a1).same(sym.parse(f"{bvar} + snap")) and unparse(a2) == "METRONOME":
             insts.append(R.ok(rid, "snap-args", file, so[0].lineno, idiom="Snap(measure, beat + fraction, METRONOME)"))
         else:
             insts.append(R.viol(rid, "snap-args", file, so[0].lineno, "an object's position is (measure, beat + fraction) in 4/4",
